@@ -69,7 +69,7 @@ def gram_passes(pid, tier):
             P.append(('error-rule frames NT2 T2 R<=2 through the checked buffer (recovery paths)', base + ['--nt', '2', '--t', '2', '--err', '1', '--maxR', '2', '--maxlen', '4']))
         if pid == 'C11':
             P.append(('error-rule frames NT2 T2 R<=3 (conflicts on the error column)', base + ['--nt', '2', '--t', '2', '--err', '1', '--maxR', '3', '--maxlen', '0', '--with-prec', '--prec-levels', '2', '--rprec-max', '1']))
-            P.append(('S/R grammars NT2 T2 R<=3 under every precedence/associativity assignment (both preferences)', base + ['--nt', '2', '--t', '2', '--err', '0', '--maxR', '3', '--maxlen', '0', '--with-prec', '--prec-levels', '2', '--rprec-max', '1']))
+            P.append(('S/R and R/R grammars NT2 T2 R<=3 under every precedence/associativity assignment (both preferences; an R/R conflict stays a conflict whatever the precedences)', base + ['--nt', '2', '--t', '2', '--err', '0', '--maxR', '3', '--maxlen', '0', '--with-prec', '--prec-levels', '2', '--rprec-max', '1']))
         if pid in ('C09', 'C01'):
             P.append(('NT2 T2 R<=3 W<=%d, inputs<=%d over terminals + space, newline and a foreign byte' % (4 if q else 5, 4 if q else 5), base + ['--nt', '2', '--t', '2', '--err', '0', '--maxR', '3', '--maxW', '4' if q else '5', '--maxlen', '4' if q else '5', '--rich']))
         P.append(('seed grammars: witnesses of repaired defects, textbook shapes (LR(1)-not-LALR, kernel subset, expression grammar in all 24 rule orders, a 6-rule grammar in all 720 rule orders), each with all its one-symbol variants', base + ['--maxlen', '4', '--max-per-frame', '0', '--neighbours', '--seeds', os.path.join(VERIF, 'seeds', 'gram_seeds.txt')]))
@@ -98,6 +98,8 @@ def gram_passes(pid, tier):
         P.append((LIFT + 'error-rule frames NT2 T2 R<=2 and NT2 T3 R<=2, strings<=4', base + ['--nt', '2', '--err', '1', '--maxlen', '4'], 'lift'))
     if pid == 'C05':
         P.append((LIFT + 'operator grammars NT1 T3 R<=3 W<=%d, all precedence/associativity assignments' % (5 if q else 6), base + ['--nt', '1', '--t', '3', '--err', '0', '--maxR', '3', '--maxW', '5' if q else '6', '--maxlen', '4', '--prec-levels', '2' if q else '3', '--rprec-max', '1' if q else '2'], 'lift'))
+    if pid == 'C05':
+        P.append(('error-rule frames NT2 T2 R<=3 with shift/reduce conflicts, all precedence/associativity assignments (the error symbol is a term of precedence 0: it counts as a rule\'s last term)', base + ['--nt', '2', '--t', '2', '--err', '1', '--maxR', '3', '--maxlen', '4', '--prec-levels', '2', '--rprec-max', '1']))
     if pid in ('C01', 'C02', 'C05', 'C08', 'C09', 'C11', 'C16'):
         P.append(('realistic seed grammars (JSON, layered expression grammar with calls, 5-operator grammar with declared precedence, statements with error recovery), all one-symbol variants, strings<=3 over 8-11 terminals + every sentence of the seed up to %d tokens and its one-token deletions' % (7 if q else 8), base + ['--maxlen', '3', '--sentences', '7' if q else '8', '--neighbours', '--max-per-frame', '0', '--seeds', os.path.join(VERIF, 'seeds', 'gram_big_seeds.txt')], 'big'))
     if pid == 'C05' and not q:   # the largest space last: it takes whatever time is left and reports exhaustive=false when cut
@@ -461,9 +463,9 @@ PROG_SPECS = {
                    dict(name='c14m', src='c14_values.cpp', args=[3 if q else 7], flags=['-DMOVE_ONLY'], label='move-only value type (compile probe + run), inputs<=%d' % (3 if q else 7), compilers=['g++', 'clang++'])],
 }
 PROG_RULE = {
- 'C19': 'Complete enumeration (the space is finite): _e1.._e9 x arity N..9; construct<T,I> x I<=arity<=9; push_back<C,A> and emplace_back<C,A> x all 72 ordered position pairs x every arity max(C,A)..9; val / create x arity 0..9; value categories lvalue, const lvalue, rvalue, move-only rvalue. Every other argument is a Poison object without copy, move or conversions (any use fails to compile); results are checked by type (static_assert), by address identity and by the unchanged data() pointer of the returned container. Compiled and run with g++ and clang++.',
+ 'C19': 'Complete enumeration (the space is finite): _e1.._e9 x arity N..9; construct<T,I> x I<=arity<=9; push_back<C,A> and emplace_back<C,A> x all 72 ordered position pairs x every arity max(C,A)..9; val / create x arity 0..9; value categories lvalue, const lvalue, rvalue, move-only rvalue. construct<T,I> is also checked to list-initialise (T{value}: std::vector<int> from 3 is {3}). Every other argument is a Poison object without copy, move or conversions (any use fails to compile); results are checked by type (static_assert), by address identity and by the unchanged data() pointer of the returned container. Compiled and run with g++ and clang++.',
  'C13': 'One 4-rule grammar in all 16 assignments of >= / >>= (16 parser instantiations) x call forms covering every overload of context_parse and parse {non-const lvalue, const lvalue, prvalue, moved lvalue of a move-only type; with stream; with options+stream; parse() and parse()+stream} x every input up to the bound over {a, b, foreign byte}. Functors log rule, argument count, address/constness/value category of the context and a generation counter kept in the context; the expected call sequence is the reduction sequence of the documented driver on a reference LR(1) table. A second grammar with rules of 0, 1, 3 and 5 right-side symbols, a typed term (whose functor must never see the context) and an error rule runs in 10 assignments under 5 call forms (including verbose and non-default options), the expected sequence coming from the documented driver with recovery.',
- 'C14': 'A grammar with nterm<V>, a typed term producing V, list building, a nullable rule, operator precedence and an error rule; V is instrumented (identity per value, copy/move/destroy counters, live set). Every input up to the bound over the 6 terminals plus a foreign byte is parsed; invariants per execution: no copies, every value destroyed exactly once, each value handed to at most one functor call, no functor sees a moved-from value, nothing alive after the call. A second build with a move-only V (copy constructor deleted) must compile and satisfy the same invariants; a third build uses a copyable V whose move constructor is not noexcept (nothing may fall back to copying); two more builds attach every functor with >>= and parse through context_parse (values must reach contextual functors as movable rvalues too; one functor takes a value parameter by value).',
+ 'C14': 'A grammar with nterm<V>, a typed term producing V, list building, a nullable rule, operator precedence and an error rule; V is instrumented (identity per value, copy/move/destroy counters, live set). Every input up to the bound over the 6 terminals plus a foreign byte is parsed; invariants per execution: no copies, every value destroyed exactly once, each value handed to at most one functor call, no functor sees a moved-from value, nothing alive after the call. A second build with a move-only V (copy constructor deleted) must compile and satisfy the same invariants; a third build uses a copyable V whose move constructor is not noexcept (nothing may fall back to copying); two more builds attach every functor with >>= and parse through context_parse (values must reach contextual functors as movable rvalues too; one functor takes a value parameter by value). Every build also runs a small grammar over trivially destructible handle types (one with counting copy/move constructors, one move-only) through cstring_buffer, i.e. on the fixed-capacity stacks: no copies there either.',
 }
 
 def run_prog_check(pid, tier, rep, deadline_s):
@@ -519,7 +521,7 @@ def c07_one(gname, n, comp, work):
 
 def run_c07(pid, tier, rep, deadline_s):
     q = tier == 'quick'
-    plan = [('stars', 4 if q else 7), ('expr', 3 if q else 5), ('recovery', 4 if q else 6), ('numbers', 3 if q else 6), ('nul', 4 if q else 7), ('stars-nows', 4 if q else 6), ('recovery-nonl', 4 if q else 5), ('ctx', 4 if q else 6), ('custom', 4 if q else 6), ('stars-long', 0), ('recovery-long', 0), ('expr-long', 0)]
+    plan = [('stars', 4 if q else 7), ('expr', 3 if q else 5), ('recovery', 4 if q else 6), ('numbers', 3 if q else 6), ('nul', 4 if q else 7), ('stars-nows', 4 if q else 6), ('recovery-nonl', 4 if q else 5), ('ctx', 4 if q else 6), ('custom', 4 if q else 6), ('bigvalue', 0), ('stars-long', 0), ('recovery-long', 0), ('expr-long', 0)]
     work = os.path.join(BUILD, 'run-C07-%s%s' % (tier, ('-%d' % os.getpid()) if _SCRATCH else '')); shutil.rmtree(work, ignore_errors=True); os.makedirs(work)
     jobs = [(g, n, c) for (g, n) in plan for c in ('g++', 'clang++')]
     from concurrent.futures import ThreadPoolExecutor
@@ -527,7 +529,7 @@ def run_c07(pid, tier, rep, deadline_s):
     shutil.rmtree(work, ignore_errors=True)
     cases = checks = ce = acc = 0; samples = []; bounds = []
     for r in results:
-        label = ('%s grammar, inputs<=%d, %s' % (r['grammar'], dict(plan)[r['grammar']], r['compiler'])) if not r['grammar'].endswith('-long') else ('%s grammar, literals of 100..2049 characters / nesting to 600 (one-dimensional sweep), %s' % (r['grammar'][:-5], r['compiler']))
+        label = ('%s grammar, inputs<=%d, %s' % (r['grammar'], dict(plan)[r['grammar']], r['compiler'])) if not (r['grammar'].endswith('-long') or r['grammar'] == 'bigvalue') else ('%s grammar: an 8 KiB literal value type, literals up to 400 characters, %s' % (r['grammar'], r['compiler'])) if r['grammar'] == 'bigvalue' else ('%s grammar, literals of 100..2049 characters / nesting to 600 (one-dimensional sweep), %s' % (r['grammar'][:-5], r['compiler']))
         if r['other_errors']:
             rep.add({'kind': 'does-not-compile', 'known': '', 'engine': 'ct', 'summary': '%s: the generated unit does not compile: %s' % (label, ' / '.join(map(str, r['other_errors']))[:500])}); bounds.append({'pass': label, 'completed': False}); continue
         for (i, text, msg) in r['not_constant'][:3]:
@@ -704,7 +706,7 @@ def run_c15(pid, tier, rep, deadline_s):
 def run_c08(pid, tier, rep, deadline_s):
     q = tier == 'quick'
     run_gram(pid, tier, rep, deadline_s); cov = dict(rep.coverage)
-    totals, samples, bounds, extra = run_progs(pid, rep, [dict(name='c08c', src='c08_compiled.cpp', args=[5 if q else 7], compilers=['g++'] if q else ['g++', 'clang++'], label='4 compiled grammars with error rules (README; two nesting levels; typed no_type separator; custom lexer) x inputs<=%d' % (5 if q else 7))], deadline_s)
+    totals, samples, bounds, extra = run_progs(pid, rep, [dict(name='c08c', src='c08_compiled.cpp', args=[5 if q else 7], compilers=['g++'] if q else ['g++', 'clang++'], label='4 compiled grammars with error rules (README; two nesting levels; typed no_type separator; custom lexer) x inputs<=%d; depth sweeps; up to %d recoveries in one parse' % (5 if q else 7, 4096 if q else 70000))], deadline_s)
     rep.coverage = merge_cov(cov, {'states': totals['cases'], 'transitions': totals['checks'], 'traces_validated_against_impl': totals['cases'], 'samples': samples, 'evaluations': totals['cases'], 'distinct_nontrivial': extra.get('recovered', 0) + extra.get('recovery_failed', 0), 'bounds': bounds,
                                    'exhaustive': all(b['completed'] for b in bounds), 'counters': extra, 'rule': 'Compiled part: four ordinary DSL grammars with error rules on every input up to the bound over their terminals, space and a foreign byte; result, value tree and every message (with position) must equal the documented driver + recovery on a reference LR(1) table.'})
 
@@ -714,6 +716,13 @@ def run_c05(pid, tier, rep, deadline_s):
     totals, samples, bounds, extra = run_progs(pid, rep, [dict(name='c05d', src='c05_dsl.cpp', args=[6 if q else 8], compilers=['g++'] if q else ['g++', 'clang++'], label='DSL spellings of an explicit rule precedence ([n] before/after >= and >>=, explicit precedences on binary rules, negative value) x inputs<=%d over {2,-,*,space}' % (6 if q else 8))], deadline_s)
     rep.coverage = merge_cov(cov, {'states': totals['cases'], 'transitions': totals['checks'], 'traces_validated_against_impl': totals['cases'], 'samples': samples, 'evaluations': totals['cases'], 'distinct_nontrivial': extra.get('accepted', 0), 'bounds': bounds,
                                    'exhaustive': all(b['completed'] for b in bounds), 'rule': 'Compiled part: one operator grammar written with the explicit rule precedence attached before and after a >= functor and before and after a >>= functor (parsed through context_parse), with the prefix rule at three levels, and with explicit precedences (one negative) on the binary rules; the grouping of every input up to the bound must equal that of an independent precedence-climbing parser built from the declared levels.'})
+
+def run_c01(pid, tier, rep, deadline_s):
+    q = tier == 'quick'
+    run_gram(pid, tier, rep, deadline_s); cov = dict(rep.coverage)
+    totals, samples, bounds, extra = run_progs(pid, rep, [dict(name='c01n', src='c01_names.cpp', args=[5 if q else 7], compilers=['g++'] if q else ['g++', 'clang++'], label='symbol identity in the DSL (two regex terms with one display name; a term named like a nonterminal) x inputs<=%d' % (5 if q else 7))], deadline_s)
+    rep.coverage = merge_cov(cov, {'states': totals['cases'], 'transitions': totals['checks'], 'traces_validated_against_impl': totals['cases'], 'samples': samples, 'evaluations': totals['cases'], 'distinct_nontrivial': extra.get('accepted', 0), 'bounds': bounds,
+                                   'exhaustive': all(b['completed'] for b in bounds), 'rule': 'Compiled part: grammars in which two different terms carry the same display name, and in which a term is named like a nonterminal; each rule must refer to the object that was written (every input up to the bound against a hand-written recogniser of the rules as written).'})
 
 def run_c18(pid, tier, rep, deadline_s):
     run_gram(pid, tier, rep, deadline_s); cov = dict(rep.coverage)
@@ -731,7 +740,7 @@ def run_c09(pid, tier, rep, deadline_s):
 def run_c02(pid, tier, rep, deadline_s):
     q = tier == 'quick'
     run_gram(pid, tier, rep, deadline_s); cov = dict(rep.coverage)
-    totals, samples, bounds, extra = run_progs(pid, rep, [dict(name='c02v', src='c02_values.cpp', args=[4 if q else 6], compilers=['g++'] if q else ['g++', 'clang++'], label='rules without functor (0-3 children of distinct types), typed term, helper functors; inputs<=%d over 9 bytes' % (4 if q else 6))], deadline_s)
+    totals, samples, bounds, extra = run_progs(pid, rep, [dict(name='c02v', src='c02_values.cpp', args=[4 if q else 6], compilers=['g++'] if q else ['g++', 'clang++'], label='rules without functor (0-3 children of distinct types, initializer_list types), typed term, helper functors, functors returning lvalue references; inputs<=%d over 9 bytes' % (4 if q else 6))], deadline_s)
     rep.coverage = merge_cov(cov, {'states': totals['cases'], 'transitions': totals['checks'], 'traces_validated_against_impl': totals['cases'], 'samples': samples, 'evaluations': totals['cases'], 'distinct_nontrivial': extra.get('accepted', 0), 'bounds': bounds,
                                    'exhaustive': all(b['completed'] for b in bounds), 'rule': 'Compiled part: a grammar whose rules have no functor (left-side value constructed from 0, 1, 2 and 3 right-side values of distinct types), a typed term and helper functors, on every input up to the bound; value and construction order are compared with an independent recursive-descent evaluator.'})
 
@@ -865,6 +874,7 @@ def dispatch(pid, tier, rep, deadline):
     if True:
         if pid == 'C08': run_c08(pid, tier, rep, deadline)
         elif pid == 'C05': run_c05(pid, tier, rep, deadline)
+        elif pid == 'C01': run_c01(pid, tier, rep, deadline)
         elif pid == 'C18': run_c18(pid, tier, rep, deadline)
         elif pid == 'C02': run_c02(pid, tier, rep, deadline)
         elif pid == 'C09': run_c09(pid, tier, rep, deadline)
